@@ -1,22 +1,30 @@
 ----------------------------- MODULE Gen_Dedup -----------------------------
-(* Step G for C10, exhaustive part: every arrival history of 1..MaxLen      *)
-(* receptions over Frames x Times for every window in Ws (for window 0 only *)
-(* up to W0MaxLen: every arrival is then emitted alone at once), one JSON   *)
-(* line each.  Receivers: with FullRx every assignment of Receivers, else   *)
-(* the fixed pattern (position + frame) mod 2 (the code under test never    *)
-(* reads the reception's metadata; MC_Dedup covers all assignments).        *)
-(* A vector is [w, tpm, h] with h[i] = <<frame, ticks, receiver>>.          *)
+(* Step G for C10, exhaustive part: every arrival history of 1..LenOf[w]    *)
+(* receptions over Frames x Times, for every window w in DOMAIN LenOf       *)
+(* (window 0 is kept shorter: every arrival is then emitted alone at once), *)
+(* one JSON line each.  Receivers: with FullRx every assignment of          *)
+(* Receivers, else the fixed pattern (position + frame) mod 2 (the code     *)
+(* under test never reads the reception's metadata; MC_Dedup covers all     *)
+(* assignments).  A vector is [w, tpm, h], h[i] = <<frame, ticks, receiver>> *)
 EXTENDS Integers, Sequences, TLC, Json
 
-CONSTANTS Frames, Times, Ws, MaxLen, W0MaxLen, TicksPerMs, FullRx, Receivers
+CONSTANTS Frames, Times, LenOf, TicksPerMs, FullRx, Receivers   \* LenOf: window -> longest history
 
 Arr == IF FullRx THEN Frames \X Times \X Receivers ELSE Frames \X Times
 Rx(i, a) == IF FullRx THEN a[3] ELSE (i + a[1]) % 2
 Vec(ww, n, a) == [w |-> ww, tpm |-> TicksPerMs,
                   h |-> [i \in 1..n |-> <<a[i][1], a[i][2], Rx(i, a[i])>>]]
 
-ASSUME \A ww \in Ws : \A n \in 1..(IF ww = 0 THEN W0MaxLen ELSE MaxLen) :
+ASSUME \A ww \in DOMAIN LenOf : \A n \in 1..LenOf[ww] :
          \A a \in [1..n -> Arr] : PrintT(ToJson(Vec(ww, n, a)))
+
+Lens(a, b, c, d) == (0 :> a) @@ (1 :> b) @@ (2 :> c) @@ (3 :> d)
+L3443 == Lens(3, 4, 4, 3)
+L2222 == Lens(2, 2, 2, 2)
+L333 == (0 :> 3) @@ (1 :> 3) @@ (2 :> 3)
+L4555 == Lens(4, 5, 5, 5)
+L3333 == Lens(3, 3, 3, 3)
+L444 == (0 :> 4) @@ (1 :> 4) @@ (2 :> 4)
 
 VARIABLE dummy
 GenInit == dummy = 0
